@@ -450,7 +450,7 @@ Proof.
     repeat destruct Hm as [<-|Hm]; try contradiction; cbn in E;
       try (injection E as <-; eexists; split; reflexivity).
     (* ENVELOPE *)
-    destruct (envelope_value (e_msg e)) as [v|]; [|discriminate].
+    destruct (envelope_value (mail_table (e_mail e)) (e_msg e)) as [v|]; [|discriminate].
     injection E as <-. eexists; split; reflexivity.
   - rewrite (expected_sec peek s part H).
     destruct (sec_text_props s H) as [_ Hl].
